@@ -241,9 +241,17 @@ func startWatchdog() {
 			limit = time.Duration(s) * time.Second
 		}
 	}
+	if v := os.Getenv("VERIF_WATCHDOG_MS"); v != "" {
+		// development aid: exercises the driver's handling of expiries
+		var ms int
+		fmt.Sscanf(v, "%d", &ms)
+		if ms > 0 {
+			limit = time.Duration(ms) * time.Millisecond
+		}
+	}
 	go func() {
 		for {
-			time.Sleep(500 * time.Millisecond)
+			time.Sleep(minDur(500*time.Millisecond, limit/2))
 			st := wdStart.Load()
 			if st == 0 {
 				continue
@@ -283,3 +291,10 @@ type replayFn func(raw json.RawMessage) (msg string, failed bool, err error)
 var replayers = map[string]replayFn{}
 
 func getenv(name string) string { return os.Getenv(name) }
+
+func minDur(a, b time.Duration) time.Duration {
+	if a < b {
+		return a
+	}
+	return b
+}
